@@ -156,10 +156,24 @@ impl Diff {
 fn tokenize(b: &[u8]) -> impl Iterator<Item = &[u8]> {
     use std::iter;
 
+    // The decoder holds at most 128 token positions per name: the DIFF/DUP token, the name's
+    // tokens and the END token. Whatever follows the last available position becomes one token.
+    const MAX_TOKEN_COUNT: usize = 126;
+
     let mut start = 0;
     let mut end = 0;
+    let mut n = 0;
 
     iter::from_fn(move || {
+        n += 1;
+
+        if n == MAX_TOKEN_COUNT && start < b.len() {
+            let beg = start;
+            start = b.len();
+            end = b.len();
+            return Some(&b[beg..]);
+        }
+
         while end < b.len() && b[end].is_ascii_alphanumeric() {
             end += 1;
         }
